@@ -23,6 +23,7 @@ import re
 import shutil
 import subprocess
 import sys
+import threading
 import time
 
 VERIF = os.path.dirname(os.path.dirname(os.path.abspath(__file__)))
@@ -135,9 +136,12 @@ class Ctx:
         print("INFRA-ERROR property=%s %s" % (self.pid, msg), flush=True)
 
     # ------------------------------------------------------------------ spec staging
+    _stage_lock = threading.Lock()
+
     def stage_specs(self, extra_files=None):
-        d = os.path.join(self.scratch, "spec%d" % self._tlc_n)
-        self._tlc_n += 1
+        with Ctx._stage_lock:
+            d = os.path.join(self.scratch, "spec%d" % self._tlc_n)
+            self._tlc_n += 1
         os.makedirs(d, exist_ok=True)
         src = os.path.join(VERIF, "spec")
         for root, _, files in os.walk(src):
@@ -161,7 +165,7 @@ class Ctx:
         cfg = cfg or (module + ".cfg")
         meta = os.path.join(d, "meta")
         w = workers if workers is not None else NCPU
-        cmd = ["java", "-XX:+UseParallelGC", "-Xss" + xss]
+        cmd = ["java", "-XX:+UseParallelGC", "-XX:ParallelGCThreads=4", "-Xss" + xss]
         if heap:
             cmd.append("-Xmx" + heap)
         if deque:
@@ -243,7 +247,8 @@ class Ctx:
                 if line.startswith("Error:"):
                     r.errors.append(line)
                     m2 = re.match(r"Error: Invariant (\S+) is violated", line)
-                    m3 = re.match(r"Error: Action property (\S+) is violated", line)
+                    m3 = re.match(r"Error: Action property (\S+) is violated", line) or \
+                        re.match(r"Error: The invariant of (\S+) is equal to FALSE", line)
                     if m2 or m3:
                         r.violated = (m2 or m3).group(1)
                     if "Deadlock reached" in line:
@@ -393,6 +398,10 @@ class Ctx:
     def cover(self, edges, inits, max_len=120, max_paths=None):
         """edges: list of {from, act, to}; inits: list of states.  Returns list of paths; a path is a
         dict {init: state, steps: [{act, to}]}.  Every edge reachable from an init state is in some path."""
+        if len(edges) > 60000:
+            # the greedy stitcher below is quadratic in bad cases; big graphs use the linear BFS-prefix cover
+            paths, ncov, _ = fast_cover(edges, inits, max_len)
+            return (paths[:max_paths] if max_paths else paths), ncov
         sid = {}
 
         def ident(s):
@@ -543,6 +552,86 @@ class Ctx:
             sys.exit(2)
         print("RESULT property=%s OK wall=%.1fs" % (self.pid, time.time() - self.t0))
         sys.exit(0)
+
+
+def fast_cover(edges, inits, max_len=60):
+    sid = {}
+    states = []
+
+    def ident(s):
+        c = canon(s)
+        i = sid.get(c)
+        if i is None:
+            i = sid[c] = len(states)
+            states.append(s)
+        return i
+
+    seen = set()
+    E = []          # (from, act, to)
+    adj = {}
+    for e in edges:
+        a, b = ident(e["from"]), ident(e["to"])
+        k = (a, canon(e["act"]), b)
+        if k in seen:
+            continue
+        seen.add(k)
+        adj.setdefault(a, []).append(len(E))
+        E.append((a, e["act"], b))
+    roots = [ident(s) for s in inits]
+    parent = {r: None for r in roots}   # node -> edge index of the BFS tree
+    root_of = {r: r for r in roots}
+    order = list(roots)
+    qi = 0
+    while qi < len(order):
+        u = order[qi]
+        qi += 1
+        for ei in adj.get(u, ()):
+            v = E[ei][2]
+            if v not in parent:
+                parent[v] = ei
+                root_of[v] = root_of[u]
+                order.append(v)
+    covered = [False] * len(E)
+    nxt = {u: 0 for u in adj}           # per node: index of the first possibly uncovered out-edge
+    ncov = 0
+    paths = []
+
+    def uncovered_edge(u):
+        lst = adj.get(u)
+        if not lst:
+            return None
+        i = nxt[u]
+        while i < len(lst) and covered[lst[i]]:
+            i += 1
+        nxt[u] = i
+        return lst[i] if i < len(lst) else None
+
+    for u in order:
+        while uncovered_edge(u) is not None:
+            pre = []
+            x = u
+            while parent[x] is not None:
+                pre.append(parent[x])
+                x = E[parent[x]][0]
+            pre.reverse()
+            chain = []
+            cur = u
+            while len(pre) + len(chain) < max(max_len, len(pre) + 1):
+                ei = uncovered_edge(cur)
+                if ei is None:
+                    break
+                covered[ei] = True
+                ncov += 1
+                chain.append(ei)
+                cur = E[ei][2]
+            for ei in pre:
+                if not covered[ei]:
+                    covered[ei] = True
+                    ncov += 1
+            paths.append({"init": states[root_of[u]],
+                          "steps": [{"act": E[ei][1], "to": states[E[ei][2]]} for ei in pre + chain]})
+    reachable_edges = sum(len(adj.get(u, ())) for u in order)
+    return paths, ncov, reachable_edges
 
 
 def read_ndjson(path):
